@@ -3,6 +3,8 @@
              | prv:<secret hex32>:<chain hex>:<depth>:<pfp hex>:<index>
              | pub:<33-byte hex>:<chain hex>:<depth>:<pfp hex>:<index>
              | xstr:<base58 string>:<prv|pub>:<same five fields>      (the string is for the implementation)
+             | ctor:<form>:<options>:<aux>:<prv|pub>:<same five fields>   (form/options/aux: how the implementation's constructor
+                                                                         is given this key material; the model has one object)
    requests    derive <key> <path hex> <s|l> <vprv> <vpub>
                split  <key> <path1 hex> <path2 hex> <vprv> <vpub>
                cpriv  <key> <index> <0|1> <vprv> <vpub>
@@ -39,6 +41,28 @@ let key_of_fields kind k c d f i : lkey option =
               | None -> None)   (* Key(strict=True) refuses encodings that are not curve points *)
   | _ -> failwith "key kind"
 
+(* a construction form of HDKey.__init__ (Proofs/Bip32Construct.v): what is handed over, the chain= argument
+   ([] when option z leaves it out), the metadata arguments *)
+let key_of_ctor form opts kind k c d f i : lkey option =
+  let chain = if String.contains opts 'z' then [] else bytes_of_hex c in
+  let m = mk_meta d f i in
+  let sec () = of_be (bytes_of_hex k) in
+  let other = mk_meta "9" "aabbccdd" "77" in
+  let mat = match form, kind with
+    | ("kwbytes" | "kwhex" | "kwint" | "kwboth"), "prv" -> Some (CKeyKw (sec ()))
+    | ("kwbytes" | "kwhex"), "pub" -> (match lib_import_pub (bytes_of_hex k) with Some pt -> Some (CPubKw pt) | None -> None)
+    | "cat64", "prv" -> Some (CCat64 (sec (), bytes_of_hex c))
+    | ("hex" | "hexc" | "bytes" | "bytesc" | "int" | "wif" | "bip38"), "prv" -> Some (CScalar (sec ()))
+    | ("keyhex" | "keybytes" | "keyint" | "keywif" | "keypos" | "hdseed"), "prv" -> Some (CObject (sec (), [], mk_meta "0" "00000000" "0"))
+    | "hdobj", "prv" -> Some (CObject (sec (), bytes_of_hex "202122232425262728292a2b2c2d2e2f303132333435363738393a3b3c3d3e3f", other))
+    | "hdobjsame", "prv" -> Some (CObject (sec (), bytes_of_hex c, m))
+    | ("pubhex" | "pubbytes" | "point"), "pub" -> (match lib_import_pub (bytes_of_hex k) with Some pt -> Some (CPubScalar pt) | None -> None)
+    | _ -> failwith "ctor form" in
+  match mat with
+  | Some (CCat64 _ as x) -> Some (lib_construct x [] m)
+  | Some x -> Some (lib_construct x chain m)
+  | None -> None
+
 let key_of_tok t : lkey option =
   match String.split_on_char ':' t with
   | ["seed"; h] -> lib_from_seed (bytes_of_hex h)
@@ -46,6 +70,7 @@ let key_of_tok t : lkey option =
   | [kind; k; c; d; f; i] -> key_of_fields kind k c d f i
   | ["xstr"; _; kind; k; c; d; f; i] -> key_of_fields kind k c d f i
   | ["xwif"; _; kind; k; c; d; f; i] -> key_of_fields kind k c d f i
+  | ["ctor"; form; opts; _; kind; k; c; d; f; i] -> key_of_ctor form opts kind k c d f i
   | ["phrase"; _; _; h] -> lib_from_seed (bytes_of_hex h)
   | _ -> failwith "key token"
 
